@@ -3,10 +3,7 @@ import PyYetiVerif.Model.RainflowEntry
 /-! Line protocol for C05.
 request : `rf  v0 v1 …`  (integers)  → tidy model, rainflow with offsets
           `rf1 v0 v1 …`              → tidy model, variant without offsets
-          `ge <g> <shape…> | <bits…>`      → GENERATED `py_rain.rainflow` at Float (IEEE doubles given
-                                             as their 64-bit patterns in decimal), `g` ∈ 0 1
-          `gw <g> <up> <shape…> | <bits…>` → GENERATED `cyclecount.rainflow` on top of the generated
-                                             `py_rain.rainflow`
+          (IEEE doubles are given as their 64-bit patterns in decimal)
           `me <c|py> <g> <safe> <shape…> | <bits…>` → entry MODEL (`g` ∈ 0 1 -, `-` = omitted; `safe` ∈ 0 1:
                                              does the dtype cast safely to float64)
           `mw <availc> <g> <up> <safe> <shape…> | <bits…>` → wrapper MODEL (`g`,`up` ∈ 0 1 -)
